@@ -41,6 +41,10 @@ class Collector(object):
         if key in self.vkeys:
             return
         self.vkeys.add(key)
+        self.per_clause = getattr(self, "per_clause", {})
+        self.per_clause[clause] = self.per_clause.get(clause, 0) + 1
+        if self.per_clause[clause] > 40:
+            return
         if len(self.violations) < self.max_violations:
             self.violations.append({"clause": clause, "function": function, "input": inp,
                                     "observed": observed, "expected": expected, "note": note})
